@@ -538,3 +538,4 @@ LEVEL_NOTE = ("the model is tied to the code by differential testing on generate
               "partial / name form, separators / . \\ | ::, missing paths); multi-character separators and the `sep` replacement are "
               "covered by the tie only")
 TECHNIQUE = "Lean 4 proof (implementation-shaped model = structural specification) + correspondence check against the real library"
+RULE = RULE + " Fourth session: the caller's list of prune paths must be unchanged after the call."
